@@ -5,7 +5,10 @@
 //! commanders; in a third of the cases both sides host both. `raw_case`: one `RemoteTask` (agents,
 //! downlinks, commanders) against a raw ratchet peer driven by the harness, which writes valid
 //! envelopes in several spellings, envelopes that are invalid by construction and random mutations
-//! (classified by the real reader), and reads what the task writes.
+//! (classified by the real reader), and reads what the task writes. `edge::edge_case` (part
+//! `socket-edge`, file `socket/edge.rs`): the raw flavour on the paths where an envelope has no
+//! addressee or the connection goes away under live traffic; it shares the world generator, the
+//! actors, `settle` and the oracle (`evaluate_with`) with the other two.
 //!
 //! Everything runs on a paused current-thread runtime; quiescence is "no arrival during a 50 ms
 //! virtual sleep" (all pacing delays of the harness are at most 20 ms). Every message carries a
@@ -36,7 +39,7 @@ use swimos_messages::protocol::{
     BytesRequestMessage, BytesResponseMessage, Notification, Operation, RawRequestMessageDecoder, RawRequestMessageEncoder,
     RawResponseMessageDecoder, RawResponseMessageEncoder, RequestMessage, ResponseMessage,
 };
-use swimos_messages::remote_protocol::{AttachClient, FindNode, NoSuchAgent, NodeConnectionRequest};
+use swimos_messages::remote_protocol::{AgentResolutionError, AttachClient, FindNode, NoSuchAgent, NodeConnectionRequest};
 use swimos_remote::RemoteTask;
 use swimos_utilities::byte_channel::{byte_channel, ByteReader};
 use swimos_utilities::encoding::BytesStr;
@@ -50,6 +53,9 @@ use crate::names::{body_class, name_class, random_name, tagged_body};
 use crate::pure::{self, Enc};
 use crate::rawpeer;
 use crate::P;
+
+mod edge;
+pub use edge::{edge_case, RULE_EDGE};
 
 pub const RULE_DUPLEX: &str = "two RemoteTasks joined by tokio::io::duplex (buffer 64 B - 64 kB) under ratchet web sockets, each future behind a seeded Jitter, on a \
     paused current-thread runtime: side 0 hosts 1-6 agents (FindNode answered with harness-owned byte channels of capacity 16 B - 4 kB; up to \
@@ -228,6 +234,51 @@ struct InstSpec {
     answer_delay: u32,
     /// The agent dies in the middle of writing a frame: a strict prefix of one more frame, then the channel closes.
     end_mid_frame: bool,
+    /// Part socket-edge only: after its script the agent writes one complete frame that the task's
+    /// decoder rejects (marker string for the observation of what becomes of it).
+    corrupt_end: Option<(Corrupt, String)>,
+}
+
+/// A complete frame on a byte channel that the raw message decoders reject.
+#[derive(Clone, Copy, Debug, PartialEq, Eq)]
+pub(crate) enum Corrupt {
+    /// A frame of the other direction (request tag on an agent's channel, response tag on a downlink's).
+    ForeignTag,
+    /// A body length on a kind that has no body (linked / link).
+    BodyOnBodylessKind,
+    /// Node bytes that are not UTF-8.
+    InvalidUtf8Name,
+}
+
+impl Corrupt {
+    fn name(self) -> &'static str {
+        match self {
+            Corrupt::ForeignTag => "foreign-tag",
+            Corrupt::BodyOnBodylessKind => "body-on-bodyless-kind",
+            Corrupt::InvalidUtf8Name => "invalid-utf8-name",
+        }
+    }
+
+    /// The bytes of the frame: 16 B id, u32 node length, u32 lane length, u64 (tag << 61 | body length), node, lane, body.
+    fn bytes(self, id: Uuid, node: &str, lane: &str, marker: &str, on_response_channel: bool) -> Vec<u8> {
+        let (tag, node_b, body): (u64, Vec<u8>, Vec<u8>) = match (self, on_response_channel) {
+            (Corrupt::ForeignTag, true) => (0b011, node.as_bytes().to_vec(), marker.as_bytes().to_vec()), // command
+            (Corrupt::ForeignTag, false) => (0b111, node.as_bytes().to_vec(), marker.as_bytes().to_vec()), // event
+            (Corrupt::BodyOnBodylessKind, true) => (0b100, node.as_bytes().to_vec(), marker.as_bytes().to_vec()), // linked
+            (Corrupt::BodyOnBodylessKind, false) => (0b000, node.as_bytes().to_vec(), marker.as_bytes().to_vec()), // link
+            (Corrupt::InvalidUtf8Name, true) => (0b111, vec![b'/', 0xff, 0xfe], marker.as_bytes().to_vec()),
+            (Corrupt::InvalidUtf8Name, false) => (0b011, vec![b'/', 0xff, 0xfe], marker.as_bytes().to_vec()),
+        };
+        let mut b = Vec::new();
+        b.extend_from_slice(&id.as_u128().to_be_bytes());
+        b.extend_from_slice(&(node_b.len() as u32).to_be_bytes());
+        b.extend_from_slice(&(lane.len() as u32).to_be_bytes());
+        b.extend_from_slice(&((tag << 61) | body.len() as u64).to_be_bytes());
+        b.extend_from_slice(&node_b);
+        b.extend_from_slice(lane.as_bytes());
+        b.extend_from_slice(&body);
+        b
+    }
 }
 
 #[derive(Clone, Debug)]
@@ -247,6 +298,8 @@ struct DlSpec {
     out_cap: usize,
     reader: ReaderSpec,
     keep_writer: bool,
+    /// Part socket-edge only, as for `InstSpec`.
+    corrupt_end: Option<(Corrupt, String)>,
 }
 
 #[derive(Clone, Debug)]
@@ -267,6 +320,10 @@ struct SideSpec {
     reg_buf: usize,
     attach_cap: usize,
     jitter: u64,
+    /// Part socket-edge only: the resolver refuses through `NodeConnectionRequest::fail`.
+    fail_api: bool,
+    /// Part socket-edge only: nodes for which the resolver answers `PlaneStopping`.
+    stopping_nodes: Vec<String>,
 }
 
 struct World {
@@ -425,6 +482,7 @@ fn gen_world(rng: &mut Rng, pool: &[String], raw: bool) -> World {
                     keep_writer: g.rng.bool(),
                     answer_delay: if g.rng.chance(1, 3) { g.rng.range(1, 10) as u32 } else { 0 },
                     end_mid_frame: g.rng.chance(1, 6),
+                    corrupt_end: None,
                 });
             }
             nodes.push(NodeSpec { name: name.clone(), instances });
@@ -457,6 +515,7 @@ fn gen_world(rng: &mut Rng, pool: &[String], raw: bool) -> World {
                     out_cap: *g.rng.pick(&CAPS),
                     reader: g.reader(true),
                     keep_writer: g.rng.bool(),
+                    corrupt_end: None,
                 });
             }
             let n_cmd = g.rng.range(0, if raw { 1 } else { 2 });
@@ -476,6 +535,8 @@ fn gen_world(rng: &mut Rng, pool: &[String], raw: bool) -> World {
             reg_buf: g.rng.range(1, 8) as usize,
             attach_cap: g.rng.range(1, 8) as usize,
             jitter: *g.rng.pick(&[0, 0, 50, 200, 500]),
+            fail_api: false,
+            stopping_nodes: vec![],
         });
     }
     let duplex_buf = *g.rng.pick(&[64usize, 256, 1024, 4096, 65536]);
@@ -556,6 +617,25 @@ struct LogInner {
     abort: Option<Abort>,
     /// Per task: (side, most polls at one virtual instant, polls in total, budget), recorded when it ends.
     task_polls: Vec<(usize, u64, u64, u64)>,
+    /// Part socket-edge: branch counters of the harness actors.
+    counts: HashMap<&'static str, u64>,
+    /// Harness readers (agent / downlink ends of the byte channels the task writes to) still waiting for a frame.
+    readers_live: [u64; 2],
+    /// Part socket-edge: (ticket, source) of the corrupt frames written to byte channels.
+    corrupt_written: Vec<(u64, u32)>,
+}
+
+impl LogInner {
+    fn bump(&mut self, key: &'static str) {
+        *self.counts.entry(key).or_insert(0) += 1;
+    }
+}
+
+/// Runs a harness reader and keeps count of the readers that have not returned (0: agents, 1: downlinks).
+async fn tracked(log: Log, which: usize, reader: impl Future<Output = ()>) {
+    log.lock().unwrap().readers_live[which] += 1;
+    reader.await;
+    log.lock().unwrap().readers_live[which] -= 1;
 }
 
 /// Why a case was cut short. Both are decided on logical steps, never on wall-clock time.
@@ -778,9 +858,12 @@ async fn downlink_reader(log: Log, ep: Ep, reader: ByteReader, spec: ReaderSpec,
 /// Answers `FindNode`: known nodes get a fresh agent instance, anything else `NoSuchAgent`.
 async fn resolver(log: Log, side: usize, spec: SideSpec, mut find_rx: mpsc::Receiver<FindNode>, scripts: mpsc::UnboundedSender<tokio::task::JoinHandle<()>>) {
     while let Some(FindNode { node, lane, request }) = find_rx.recv().await {
-        let NodeConnectionRequest::Warp { source, promise } = request else {
-            log.lock().unwrap().problems.push(("findnode-not-warp".into(), "RemoteTask asked for an HTTP connection".into(), Json::Null));
-            continue;
+        let source = match &request {
+            NodeConnectionRequest::Warp { source, .. } => *source,
+            _ => {
+                log.lock().unwrap().problems.push(("findnode-not-warp".into(), "RemoteTask asked for an HTTP connection".into(), Json::Null));
+                continue;
+            }
         };
         {
             let mut l = log.lock().unwrap();
@@ -805,7 +888,19 @@ async fn resolver(log: Log, side: usize, spec: SideSpec, mut find_rx: mpsc::Rece
                 continue;
             }
         }
-        match spec.nodes.iter().position(|n| n.name == node.as_str()) {
+        let found = spec.nodes.iter().position(|n| n.name == node.as_str());
+        if found.is_none() && spec.fail_api {
+            // Part socket-edge: refusals go through the public `fail` (same promise, same value).
+            let stopping = spec.stopping_nodes.iter().any(|n| n == node.as_str());
+            log.lock().unwrap().bump(if stopping { "resolver/fail-api/plane-stopping" } else { "resolver/fail-api/no-such-agent" });
+            let err = if stopping { AgentResolutionError::PlaneStopping } else { NoSuchAgent { node, lane }.into() };
+            if request.fail(err).is_err() {
+                log.lock().unwrap().bump("resolver/fail-api/promise-dropped");
+            }
+            continue;
+        }
+        let NodeConnectionRequest::Warp { promise, .. } = request else { continue };
+        match found {
             None => {
                 let _ = promise.send(Err(NoSuchAgent { node, lane }.into()));
             }
@@ -827,6 +922,7 @@ async fn resolver(log: Log, side: usize, spec: SideSpec, mut find_rx: mpsc::Rece
                     keep_writer: true,
                     answer_delay: 0,
                     end_mid_frame: false,
+                    corrupt_end: None,
                 });
                 yields(inst.answer_delay).await;
                 let (to_agent_tx, to_agent_rx) = byte_channel(nz(inst.in_cap));
@@ -834,8 +930,9 @@ async fn resolver(log: Log, side: usize, spec: SideSpec, mut find_rx: mpsc::Rece
                 if promise.send(Ok((to_agent_tx, from_agent_rx))).is_err() {
                     continue;
                 }
-                tokio::spawn(agent_reader(log.clone(), Ep::Agent { side, node: ni }, to_agent_rx, inst.reader.clone(), key));
+                tokio::spawn(tracked(log.clone(), 0, agent_reader(log.clone(), Ep::Agent { side, node: ni }, to_agent_rx, inst.reader.clone(), key)));
                 let log2 = log.clone();
+                let node_name = spec.nodes[ni].name.clone();
                 let agent_id = Uuid::from_u128(0xa000 + inst.source as u128);
                 let h = tokio::spawn(async move {
                     let mut writer = FramedWrite::new(from_agent_tx, RawResponseMessageEncoder);
@@ -855,6 +952,19 @@ async fn resolver(log: Log, side: usize, spec: SideSpec, mut find_rx: mpsc::Rece
                             drop(raw);
                         }
                         return;
+                    }
+                    if let Some((corrupt, marker)) = &inst.corrupt_end {
+                        // Only if the script ran to its end (the task still holds the channel).
+                        if log2.lock().unwrap().finished_sources.contains(&inst.source) {
+                            use tokio::io::AsyncWriteExt;
+                            let bytes = corrupt.bytes(agent_id, &node_name, "lane", marker, true);
+                            let t = ticket();
+                            if writer.get_mut().write_all(&bytes).await.is_ok() {
+                                let mut l = log2.lock().unwrap();
+                                l.corrupt_written.push((t, inst.source));
+                                l.bump("corrupt-frame-written/agent-channel");
+                            }
+                        }
                     }
                     if inst.keep_writer {
                         // Held open until the end of the case.
@@ -886,7 +996,7 @@ async fn downlink(log: Log, side: usize, idx: usize, spec: DlSpec, attach_tx: mp
     }
     // The reader runs from the moment the channel is handed over: the incoming half of the task
     // may deliver to it before the attachment is confirmed.
-    tokio::spawn(downlink_reader(log.clone(), Ep::Downlink { side, idx }, to_dl_rx, spec.reader.clone(), (side, idx)));
+    tokio::spawn(tracked(log.clone(), 1, downlink_reader(log.clone(), Ep::Downlink { side, idx }, to_dl_rx, spec.reader.clone(), (side, idx))));
     match done_rx.await {
         Ok(Ok(())) => {}
         _ => {
@@ -896,7 +1006,19 @@ async fn downlink(log: Log, side: usize, idx: usize, spec: DlSpec, attach_tx: mp
     }
     log.lock().unwrap().dl_attach_done.insert((side, idx), ticket());
     let mut writer = FramedWrite::new(from_dl_tx, RawRequestMessageEncoder);
-    run_script(log, side, spec.source, spec.script, &mut writer, |f: &Frame| f.request(id)).await;
+    run_script(log.clone(), side, spec.source, spec.script, &mut writer, |f: &Frame| f.request(id)).await;
+    if let Some((corrupt, marker)) = &spec.corrupt_end {
+        if log.lock().unwrap().finished_sources.contains(&spec.source) {
+            use tokio::io::AsyncWriteExt;
+            let bytes = corrupt.bytes(id, &spec.node, &spec.lane, marker, false);
+            let t = ticket();
+            if writer.get_mut().write_all(&bytes).await.is_ok() {
+                let mut l = log.lock().unwrap();
+                l.corrupt_written.push((t, spec.source));
+                l.bump("corrupt-frame-written/downlink-channel");
+            }
+        }
+    }
     if spec.keep_writer {
         KEEP.with(|k| k.borrow_mut().push(Box::new(writer)));
     }
@@ -920,7 +1042,7 @@ async fn commander(log: Log, side: usize, spec: CmdSpec, attach_tx: mpsc::Sender
     run_script(log, side, spec.source, spec.script, &mut writer, |f: &Frame| f.request(id)).await;
 }
 
-type Ws = WebSocket<DuplexStream, NoExt>;
+type Ws<S = DuplexStream> = WebSocket<S, NoExt>;
 
 fn fake_ws(buf: usize) -> (Ws, Ws) {
     let (a, b) = duplex(buf);
@@ -938,7 +1060,7 @@ struct SideHandles {
 }
 
 /// Start one RemoteTask with its resolver, downlinks and commanders. Script tasks are reported on `scripts`.
-fn start_side(log: &Log, side: usize, spec: &SideSpec, ws: Ws, rng: &mut Rng, scripts: &mpsc::UnboundedSender<tokio::task::JoinHandle<()>>, budget: u64) -> SideHandles {
+fn start_side<S: ratchet::WebSocketStream>(log: &Log, side: usize, spec: &SideSpec, ws: Ws<S>, rng: &mut Rng, scripts: &mpsc::UnboundedSender<tokio::task::JoinHandle<()>>, budget: u64) -> SideHandles {
     let (stop_tx, stop_rx) = trigger::trigger();
     let (attach_tx, attach_rx) = mpsc::channel(spec.attach_cap);
     let find_tx = if spec.has_find {
@@ -1117,7 +1239,28 @@ fn second_envelope(arrived: &Frame, known: impl Fn(&Frame) -> bool) -> Option<(p
 /// Judge a finished case. `task_stopped_early`: the (raw flavour's) task closed the socket
 /// because of an injected invalid frame, so nothing written after that is owed.
 fn evaluate(world: &World, log: &LogInner, raw: bool, task_stopped_early: bool, frozen: bool, markers: &[(String, String)], out: &mut CaseOut) {
-    let pfx: &'static str = if raw { "socket-raw" } else { "socket" };
+    let opts = EvalOpts { pfx: if raw { "socket-raw" } else { "socket" }, raw, task_stopped_early, frozen, markers, nothing_owed: false, gap_rule: false, optional_reply_nodes: &[] };
+    evaluate_with(world, log, &opts, out)
+}
+
+/// What `evaluate_with` is told about a case. The last three fields are used by part socket-edge only.
+struct EvalOpts<'a> {
+    pfx: &'static str,
+    raw: bool,
+    task_stopped_early: bool,
+    frozen: bool,
+    markers: &'a [(String, String)],
+    /// The transport failed under the task: no delivery is owed in either direction (safety rules only).
+    nothing_owed: bool,
+    /// Whatever is owed: a message that stayed out although a later message of the same source reached
+    /// the same endpoint (which was attached throughout) is a hole in that source's sequence.
+    gap_rule: bool,
+    /// Nodes whose resolver answers `PlaneStopping`: a node-not-found reply is allowed, not owed.
+    optional_reply_nodes: &'a [String],
+}
+
+fn evaluate_with(world: &World, log: &LogInner, opts: &EvalOpts, out: &mut CaseOut) {
+    let EvalOpts { pfx, raw, task_stopped_early, frozen, markers, .. } = *opts;
     let eps = endpoints(world, raw);
     let ep_index: HashMap<Ep, usize> = eps.iter().enumerate().map(|(i, e)| (e.ep, i)).collect();
     if log.agent_mid_frame_ends > 0 {
@@ -1155,7 +1298,8 @@ fn evaluate(world: &World, log: &LogInner, raw: bool, task_stopped_early: bool, 
             let hosted = if raw && there == 1 { true } else { world.sides[there].has_find && world.sides[there].nodes.iter().any(|n| n.name == s.frame.node) };
             if !hosted && s.frame.kind != Kind::Command {
                 let f = Frame { kind: Kind::Unlinked, node: s.frame.node.clone(), lane: s.frame.lane.clone(), body: NODE_NOT_FOUND.to_vec() };
-                msgs.push(Msg { ticket: s.ticket, side: there, source: NOTFOUND_SRC + there as u32, seq: 0, frame: std::borrow::Cow::Owned(f), unique: false, after_invalid: s.after_invalid });
+                let optional = opts.optional_reply_nodes.iter().any(|n| *n == s.frame.node);
+                msgs.push(Msg { ticket: s.ticket, side: there, source: NOTFOUND_SRC + there as u32, seq: 0, frame: std::borrow::Cow::Owned(f), unique: false, after_invalid: s.after_invalid || optional });
             }
         }
     }
@@ -1192,16 +1336,20 @@ fn evaluate(world: &World, log: &LogInner, raw: bool, task_stopped_early: bool, 
             .map(|(i, _)| i)
             .collect()
     };
-    let owed = |m: &Msg, e: &EpInfo| -> bool {
-        // Nothing is owed once the system froze (reported on its own); safety is still judged.
-        if frozen || m.after_invalid || (task_stopped_early && m.side == 0) {
-            return false;
-        }
+    // The endpoint was there for the message: attached before it was written, not detached afterwards.
+    let attached = |m: &Msg, e: &EpInfo| -> bool {
         match e.ep {
             Ep::Peer => true,
             Ep::Agent { side, node } => !log.agent_detach.get(&(side, node)).map_or(false, |ts| ts.iter().any(|t| *t > m.ticket)),
             Ep::Downlink { side, idx } => log.dl_attach_done.get(&(side, idx)).map_or(false, |t| *t < m.ticket) && !log.dl_detach.contains_key(&(side, idx)),
         }
+    };
+    let owed = |m: &Msg, e: &EpInfo| -> bool {
+        // Nothing is owed once the system froze (reported on its own); safety is still judged.
+        if frozen || m.after_invalid || (task_stopped_early && m.side == 0) || opts.nothing_owed {
+            return false;
+        }
+        attached(m, e)
     };
 
     let unique_index: HashMap<&[u8], usize> = msgs.iter().enumerate().filter(|(_, m)| m.unique).map(|(i, m)| (m.frame.body.as_slice(), i)).collect();
@@ -1350,6 +1498,36 @@ fn evaluate(world: &World, log: &LogInner, raw: bool, task_stopped_early: bool, 
                 "a message never arrived although source and addressee stayed attached",
                 json!({"sent": m.frame.show(), "source": m.source, "seq": m.seq, "endpoint": {"node": e.node, "lane": e.lane}}),
             );
+        }
+    }
+    if opts.gap_rule {
+        // Uniquely tagged messages only (the others are matched by count). Not for messages that are
+        // owed anyway (reported as lost above).
+        let mut latest_arrived: HashMap<(usize, u32), u32> = HashMap::new();
+        for (ei, set) in arrived.iter().enumerate() {
+            for mi in set {
+                let m = &msgs[*mi];
+                let l = latest_arrived.entry((ei, m.source)).or_insert(0);
+                *l = (*l).max(m.seq);
+            }
+        }
+        for (mi, m) in msgs.iter().enumerate() {
+            if !m.unique || m.after_invalid {
+                continue;
+            }
+            for ei in addressees(m) {
+                let e = &eps[ei];
+                if arrived[ei].contains(&mi) || owed(m, e) || !attached(m, e) {
+                    continue;
+                }
+                if latest_arrived.get(&(ei, m.source)).map_or(false, |l| *l > m.seq) {
+                    vd.v(
+                        format!("gap/{}/to-{}", m.frame.kind.name(), ep_name(e.ep)),
+                        "a message stayed out although a later message of the same source reached the same endpoint, which was attached throughout",
+                        json!({"sent": m.frame.show(), "source": m.source, "seq": m.seq, "later_seq_arrived": latest_arrived.get(&(ei, m.source)), "endpoint": {"node": e.node, "lane": e.lane}}),
+                    );
+                }
+            }
         }
     }
     for (ei, p) in pool.iter().enumerate() {
@@ -1680,6 +1858,84 @@ fn invalid_by_construction(rng: &mut Rng, node: &str, lane: &str, m: &str) -> (V
     }
 }
 
+/// The raw peer's reader: decodes (with the real reader) every text message the task writes.
+async fn peer_reader<R: tokio::io::AsyncRead + Unpin>(log_r: Log, mut peer_rx: R) {
+    let mut message: Vec<u8> = Vec::new();
+    let mut message_op = 0u8;
+    loop {
+        let (fin, opcode, payload) = match rawpeer::read_frame(&mut peer_rx).await {
+            Ok(f) => f,
+            Err(_) => {
+                let mut l = log_r.lock().unwrap();
+                if l.peer_closed.is_none() {
+                    l.peer_closed = Some("transport closed without a close frame".into());
+                }
+                return;
+            }
+        };
+        match opcode {
+            rawpeer::OP_TEXT | rawpeer::OP_BINARY | rawpeer::OP_CONT => {
+                if opcode != rawpeer::OP_CONT {
+                    message.clear();
+                    message_op = opcode;
+                }
+                message.extend_from_slice(&payload);
+                if !fin {
+                    continue;
+                }
+                let mut l = log_r.lock().unwrap();
+                if message_op == rawpeer::OP_BINARY {
+                    l.problems.push(("task-wrote-binary-frame".into(), "the task wrote a binary frame".into(), Json::Null));
+                    continue;
+                }
+                let text = String::from_utf8_lossy(&message).to_string();
+                match pure::peel(&text) {
+                    Ok(p) => match Kind::from_name(p.kind) {
+                        Some(kind) => l.arrivals.push(Arrival { ep: Ep::Peer, origin: None, frame: Frame { kind, node: p.node, lane: p.lane, body: p.body.into_bytes() } }),
+                        None => l.problems.push(("task-wrote-auth-envelope".into(), "the task wrote an @auth/@deauth envelope".into(), json!({"frame": text}))),
+                    },
+                    Err(e) => l.problems.push(("task-wrote-unreadable-frame".into(), format!("the task wrote a text frame its own reader rejects: {e}"), json!({"frame": text.chars().take(200).collect::<String>()}))),
+                }
+            }
+            rawpeer::OP_CLOSE => {
+                let code = if payload.len() >= 2 { u16::from_be_bytes([payload[0], payload[1]]) } else { 0 };
+                let reason = String::from_utf8_lossy(payload.get(2..).unwrap_or(&[])).to_string();
+                log_r.lock().unwrap().peer_closed = Some(format!("{code} {reason}"));
+                // Keep draining until the transport closes.
+            }
+            _ => {}
+        }
+    }
+}
+
+/// The raw peer writes one valid envelope (logged before it is written), sometimes in fragments.
+#[allow(clippy::too_many_arguments)]
+async fn write_valid<W: tokio::io::AsyncWrite + Unpin>(peer_tx: &mut W, wrng: &mut Rng, log_w: &Log, text: &str, frame: &Frame, unique: bool, after_invalid: bool, mask: [u8; 4]) -> std::io::Result<()> {
+    let idx = log_send(log_w, 1, PEER_SRC, frame, unique, after_invalid);
+    // One time in four the message travels as 2-3 fragments (cut at character boundaries).
+    let mut cuts: Vec<usize> = Vec::new();
+    if wrng.chance(1, 4) && text.len() > 2 {
+        for _ in 0..wrng.range(1, 2) {
+            let mut c = wrng.usize_below(text.len());
+            while !text.is_char_boundary(c) {
+                c -= 1;
+            }
+            cuts.push(c);
+        }
+        cuts.sort();
+    }
+    // Half of the fragmented messages have a ping or an unsolicited pong between two fragments.
+    let control = if !cuts.is_empty() && wrng.chance(1, 2) { Some((wrng.usize_below(cuts.len()), if wrng.bool() { rawpeer::OP_PING } else { rawpeer::OP_PONG })) } else { None };
+    if control.is_some() {
+        log_w.lock().unwrap().control_inside_message += 1;
+    }
+    let r = rawpeer::write_message(peer_tx, rawpeer::OP_TEXT, text.as_bytes(), &cuts, mask, control).await;
+    if r.is_err() {
+        log_w.lock().unwrap().sent[idx].failed = true;
+    }
+    r
+}
+
 pub fn raw_case(rng: &mut Rng, pool: &[String], out: &mut CaseOut) {
     let world = gen_world(rng, pool, true);
     let s0 = &world.sides[0];
@@ -1818,57 +2074,9 @@ pub fn raw_case(rng: &mut Rng, pool: &[String], out: &mut CaseOut) {
         let (sends, eps) = world.size();
         let h0 = start_side(&log, 0, s0, ws0, rng, &scripts_tx, spin_budget(sends + n_frames, eps + 1));
         // The peer speaks RFC 6455 through the harness' own framer; its two directions share nothing.
-        let (mut peer_rx, mut peer_tx) = tokio::io::split(b);
+        let (peer_rx, mut peer_tx) = tokio::io::split(b);
         // Peer reader: everything the task writes.
-        let log_r = log.clone();
-        tokio::spawn(async move {
-            let mut message: Vec<u8> = Vec::new();
-            let mut message_op = 0u8;
-            loop {
-                let (fin, opcode, payload) = match rawpeer::read_frame(&mut peer_rx).await {
-                    Ok(f) => f,
-                    Err(_) => {
-                        let mut l = log_r.lock().unwrap();
-                        if l.peer_closed.is_none() {
-                            l.peer_closed = Some("transport closed without a close frame".into());
-                        }
-                        return;
-                    }
-                };
-                match opcode {
-                    rawpeer::OP_TEXT | rawpeer::OP_BINARY | rawpeer::OP_CONT => {
-                        if opcode != rawpeer::OP_CONT {
-                            message.clear();
-                            message_op = opcode;
-                        }
-                        message.extend_from_slice(&payload);
-                        if !fin {
-                            continue;
-                        }
-                        let mut l = log_r.lock().unwrap();
-                        if message_op == rawpeer::OP_BINARY {
-                            l.problems.push(("task-wrote-binary-frame".into(), "the task wrote a binary frame".into(), Json::Null));
-                            continue;
-                        }
-                        let text = String::from_utf8_lossy(&message).to_string();
-                        match pure::peel(&text) {
-                            Ok(p) => match Kind::from_name(p.kind) {
-                                Some(kind) => l.arrivals.push(Arrival { ep: Ep::Peer, origin: None, frame: Frame { kind, node: p.node, lane: p.lane, body: p.body.into_bytes() } }),
-                                None => l.problems.push(("task-wrote-auth-envelope".into(), "the task wrote an @auth/@deauth envelope".into(), json!({"frame": text}))),
-                            },
-                            Err(e) => l.problems.push(("task-wrote-unreadable-frame".into(), format!("the task wrote a text frame its own reader rejects: {e}"), json!({"frame": text.chars().take(200).collect::<String>()}))),
-                        }
-                    }
-                    rawpeer::OP_CLOSE => {
-                        let code = if payload.len() >= 2 { u16::from_be_bytes([payload[0], payload[1]]) } else { 0 };
-                        let reason = String::from_utf8_lossy(payload.get(2..).unwrap_or(&[])).to_string();
-                        log_r.lock().unwrap().peer_closed = Some(format!("{code} {reason}"));
-                        // Keep draining until the transport closes.
-                    }
-                    _ => {}
-                }
-            }
-        });
+        tokio::spawn(peer_reader(log.clone(), peer_rx));
         // Peer writer.
         let log_w = log.clone();
         let mut wrng = rng.fork();
@@ -1891,31 +2099,7 @@ pub fn raw_case(rng: &mut Rng, pool: &[String], out: &mut CaseOut) {
                         after_invalid = true;
                         rawpeer::write_frame(&mut peer_tx, if binary { rawpeer::OP_BINARY } else { rawpeer::OP_TEXT }, true, &bytes, mask).await
                     }
-                    PeerStep::Valid(text, frame, unique) => {
-                        let idx = log_send(&log_w, 1, PEER_SRC, &frame, unique, after_invalid);
-                        // One time in four the message travels as 2-3 fragments (cut at character boundaries).
-                        let mut cuts: Vec<usize> = Vec::new();
-                        if wrng.chance(1, 4) && text.len() > 2 {
-                            for _ in 0..wrng.range(1, 2) {
-                                let mut c = wrng.usize_below(text.len());
-                                while !text.is_char_boundary(c) {
-                                    c -= 1;
-                                }
-                                cuts.push(c);
-                            }
-                            cuts.sort();
-                        }
-                        // Half of the fragmented messages have a ping or an unsolicited pong between two fragments.
-                        let control = if !cuts.is_empty() && wrng.chance(1, 2) { Some((wrng.usize_below(cuts.len()), if wrng.bool() { rawpeer::OP_PING } else { rawpeer::OP_PONG })) } else { None };
-                        if control.is_some() {
-                            log_w.lock().unwrap().control_inside_message += 1;
-                        }
-                        let r = rawpeer::write_message(&mut peer_tx, rawpeer::OP_TEXT, text.as_bytes(), &cuts, mask, control).await;
-                        if r.is_err() {
-                            log_w.lock().unwrap().sent[idx].failed = true;
-                        }
-                        r
-                    }
+                    PeerStep::Valid(text, frame, unique) => write_valid(&mut peer_tx, &mut wrng, &log_w, &text, &frame, unique, after_invalid, mask).await,
                 };
                 if r.is_err() {
                     // The task closed the socket.
